@@ -54,6 +54,12 @@ func tplTol(marker string, k int) corev1.PodTemplateSpec {
 		t.Spec.Tolerations = []corev1.Toleration{{Key: "dedicated", Operator: corev1.TolerationOpEqual, Value: "infra", Effect: corev1.TaintEffectNoSchedule}}
 	case 2:
 		t.Spec.Tolerations = []corev1.Toleration{{Key: "node.kubernetes.io/unschedulable", Operator: corev1.TolerationOpExists, Effect: corev1.TaintEffectNoSchedule}, {Key: "dedicated", Operator: corev1.TolerationOpExists}}
+		// and a required node affinity every node satisfies (all generated nodes carry a zone label, batch nodes
+		// do not need one: the second term matches by name), so that the affinity predicates run in every sync
+		t.Spec.Affinity = &corev1.Affinity{NodeAffinity: &corev1.NodeAffinity{RequiredDuringSchedulingIgnoredDuringExecution: &corev1.NodeSelector{NodeSelectorTerms: []corev1.NodeSelectorTerm{
+			{MatchExpressions: []corev1.NodeSelectorRequirement{{Key: "zone", Operator: corev1.NodeSelectorOpExists}}},
+			{MatchFields: []corev1.NodeSelectorRequirement{{Key: "metadata.name", Operator: corev1.NodeSelectorOpNotIn, Values: []string{"no-such-node"}}}},
+		}}}}
 	}
 	return t
 }
